@@ -10,6 +10,10 @@
 //!     Anything whose shape is not recognised is reported in `"errors"` (the check turns that into
 //!     "tie broken"), never silently skipped.
 //!
+//! `vharness run c13 vocab`
+//!     stdin: one name per line -> the REAL `keywords::from_str`, `rust_keywords::is_keyword` and the
+//!     vocabulary registries (`builtins`, `surface::*`, `types::*`, ...) that know the name.
+//!
 //! `vharness run c13 emit`
 //!     stdin: one JSON object per line `{"id": .., "src": "<incan source>", "modules": [[name, src]..]?}`.
 //!     Runs the REAL pipeline lex -> parse -> typecheck -> lower -> IrEmitter (through
@@ -30,6 +34,7 @@ pub fn run(args: &[String]) {
             println!("{}", extract(Path::new(repo)));
         }
         "emit" => emit_mode(),
+        "vocab" => vocab_mode(),
         other => {
             eprintln!("c13: unknown mode {:?} (sites <repo> | emit)", other);
             std::process::exit(2);
@@ -138,6 +143,57 @@ fn emit_mode() {
         }
         json!({"id": id, "stage": stage, "msg": msg, "syn_ok": syn_ok, "syn_msg": syn_msg,
                "tokens": tokens, "rust": code.unwrap_or_default()})
+        .to_string()
+    });
+}
+
+// ------------------------------------------------------------------------------------------------
+// vocab mode: which of Incan's own vocabulary registries (the real `from_str` functions) know a name,
+// and what the real `rust_keywords::is_keyword` / `keywords::from_str` say about it.
+// stdin: one name per line; stdout: JSON {"name", "incan_keyword", "rust_keyword", "vocab": [registry..]}
+// ------------------------------------------------------------------------------------------------
+
+fn vocab_mode() {
+    use incan_core::lang;
+    each_line(|name| {
+        let mut v: Vec<&str> = Vec::new();
+        if lang::builtins::from_str(name).is_some() {
+            v.push("builtins");
+        }
+        if lang::surface::constructors::from_str(name).is_some() {
+            v.push("constructors");
+        }
+        if lang::surface::functions::from_str(name).is_some() {
+            v.push("surface_functions");
+        }
+        if lang::surface::types::from_str(name).is_some() {
+            v.push("surface_types");
+        }
+        if lang::types::collections::from_str(name).is_some() {
+            v.push("collections");
+        }
+        if lang::types::numerics::from_str(name).is_some() {
+            v.push("numerics");
+        }
+        if lang::types::stringlike::from_str(name).is_some() {
+            v.push("stringlike");
+        }
+        if lang::errors::from_str(name).is_some() {
+            v.push("errors");
+        }
+        if lang::traits::from_str(name).is_some() {
+            v.push("traits");
+        }
+        if lang::derives::from_str(name).is_some() {
+            v.push("derives");
+        }
+        if lang::magic_methods::from_str(name).is_some() {
+            v.push("magic_methods");
+        }
+        json!({"name": name,
+               "incan_keyword": lang::keywords::from_str(name).is_some(),
+               "rust_keyword": lang::rust_keywords::is_keyword(name),
+               "vocab": v})
         .to_string()
     });
 }
